@@ -101,6 +101,18 @@ class Gen:
             return f"{rng.choice(names)} {op} {rng.choice([*names, '1.0', '0.5', '2.0', '0.0', '1'])}"
         self.features.add("chained_compare")
         c = self.expr(names, 0)
+        if rng.random() < 0.35:
+            # equality links anywhere in the chain, also first, and chains of three links; plain operands so that the
+            # equalities really hold on the lattice of evaluation points
+            self.features.add("eq_ne")
+            ops = [rng.choice(["!=", "==", "<", "<=", ">"]) for _ in range(rng.choice([2, 2, 3]))]
+            if not any(o in ("!=", "==") for o in ops[:-1]):
+                ops[0] = rng.choice(["!=", "=="])
+            operands = [rng.choice([*names, "1.0", "0.5", "2.0"]) for _ in range(len(ops) + 1)]
+            out = operands[0]
+            for o, x in zip(ops, operands[1:]):
+                out += f" {o} {x}"
+            return out
         op1, op2 = rng.choice(["<", "<="]), rng.choice(["<", "<=", "!=", "=="])
         return f"{a} {op1} {b} {op2} {c}"
 
